@@ -1,6 +1,7 @@
 package props
 
 import (
+	"math"
 	"fmt"
 
 	"github.com/yaricom/goNEAT/v4/neat"
@@ -58,6 +59,14 @@ func drawOp(t *rapid.T, kinds []string) OpSpec {
 		op.B = rapid.IntRange(0, 50).Draw(t, "b")
 		op.F1 = float64(rapid.IntRange(0, 3).Draw(t, "f1"))
 		op.F2 = float64(rapid.IntRange(0, 3).Draw(t, "f2"))
+		switch rapid.IntRange(0, 7).Draw(t, "almost a tie") {
+		case 0: // the second parent is fitter by the smallest possible margin
+			op.F2 = math.Nextafter(op.F1, 100)
+		case 1: // ... or the first one
+			op.F1 = math.Nextafter(op.F2, 100)
+		case 2:
+			op.F1, op.F2 = op.F1*1e-13, op.F2*1e-13 // the fitness values of a task with a tiny scale
+		}
 	}
 	return op
 }
